@@ -77,12 +77,12 @@ PeakL(r, a, j, K) ==
   ELSE LET f == VertexF(a, j) IN BMax(ends, BMax(BMax(G(f - 1), G(f)), BMax(G(f + 1), G(f + 2))))
 
 (* ---- LM: motor steps taken in either direction after K ticks (jerk = 0) ---- *)
-\* native r0 and first rate (the caller checks they are representable)
-R0Fits(r, a) == InRangeL(R0L(r, a, 0))
+\* the first-tick rate is native (the caller checks DomainOK); the adjusted start rate r0 = rate_1 - a is not a per-tick rate and may
+\* exceed 32 bits (r = +-(2^31-1) with an opposing acceleration), so nothing below forms it natively
 DirN(r, a) == LET r1 == ToInt(Add(R0L(r, a, 0), FromInt(a))) IN IF r1 # 0 THEN SignI(r1) ELSE SignI(a)
 Reverses(r, a) == a # 0 /\ DirN(r, a) # 0 /\ SignI(a) = 0 - DirN(r, a)
-\* last tick whose rate still has the initial direction (or is zero)
-KRev(r, a) == LET r0 == ToInt(R0L(r, a, 0)) IN IF DirN(r, a) > 0 THEN r0 \div (0 - a) ELSE (0 - r0) \div a
+\* last tick whose rate still has the initial direction (or is zero): floor(r0 / -a) = 1 + floor(rate_1 / -a) since r0 = rate_1 - a
+KRev(r, a) == LET r1 == ToInt(Add(R0L(r, a, 0), FromInt(a))) IN IF DirN(r, a) > 0 THEN 1 + (r1 \div (0 - a)) ELSE 1 + ((0 - r1) \div a)
 CntAtL(r, a, c, K) ==
   LET p == PosAccAtL(r, a, 0, c, K).q IN
   IF ~Reverses(r, a) THEN Abs(p)
